@@ -59,7 +59,7 @@ theorem walkTrace_Ledger (e : Env) (s : St) (lh : Int) (dest : Nat) (prune : Boo
         (fun bi hbi => hblk bi (by rw [hsplit]; exact List.mem_append_left _ hbi))
       rw [hrun] at t1
       exact ⟨C2, t1⟩
-  · obtain ⟨hok, A, B, hsplit, _, hxe⟩ := mem_walkReadmit e s lh dest prune x hx
+  · obtain ⟨hok, A, B, hsplit, _, hxe⟩ := mem_walkRepost e s lh dest prune x hx
     -- the state before the re-admissions
     have hcore : Ledger e (walkCore e s lh dest prune).1 (C0 ++ blockTxs e (undoTodo e s.pointer dest).2) := by
       unfold walkCore at hok ⊢
